@@ -161,6 +161,21 @@ impl Pic {
         }
         v
     }
+    /// the same stream with the WHOLE palette given (a custom base palette): the colour count is sent as `100000 + n`
+    pub fn ints_with_palette(&self, pal: &[(u8, u8, u8)]) -> Vec<i64> {
+        let mut v = vec![self.w as i64, self.h as i64, self.ice as i64, 100000 + pal.len() as i64];
+        for c in pal {
+            v.extend([c.0 as i64, c.1 as i64, c.2 as i64]);
+        }
+        v.push(self.rows.len() as i64);
+        for r in &self.rows {
+            v.push(r.len() as i64);
+            for c in r {
+                v.extend([c.ch as i64, c.fg as i64, c.bg as i64, c.flags as i64]);
+            }
+        }
+        v
+    }
     pub fn hash(&self) -> u64 {
         fnv(self.ints().into_iter().map(|x| x as u64))
     }
